@@ -113,6 +113,7 @@ type Program struct {
 	Problems []string
 	Trusted  []string
 	PurePkgs map[string]bool
+	Axioms   map[string][]*ast.FuncDecl // package path -> axiom functions
 }
 
 func isContractFile(name string) bool {
@@ -136,7 +137,7 @@ func loadProgram() (*Program, error) {
 	p := &Program{
 		Fset: fset, Pkgs: map[string]*packages.Package{}, ByName: map[string]*packages.Package{},
 		Funcs: map[*types.Func]*FuncInfo{}, ByKey: map[string]*FuncInfo{}, SpecFile: map[*ast.File]bool{},
-		decls: map[*types.Func]*ast.FuncDecl{}, declPkg: map[*types.Func]*packages.Package{}, PurePkgs: map[string]bool{},
+		decls: map[*types.Func]*ast.FuncDecl{}, declPkg: map[*types.Func]*packages.Package{}, PurePkgs: map[string]bool{}, Axioms: map[string][]*ast.FuncDecl{},
 	}
 	for _, pk := range pkgs {
 		for _, e := range pk.Errors {
@@ -221,6 +222,13 @@ func (p *Program) parseContractFile(pk *packages.Package, f *ast.File) {
 						p.Trusted = append(p.Trusted, "contract of "+fi.Key+" (no body in repo, assumed)")
 					}
 				}
+			case "axiom":
+				if owner == nil {
+					p.problem("%s: //kvc:axiom must be the doc comment of a function", p.Fset.Position(c.Pos()))
+					continue
+				}
+				p.Axioms[pk.PkgPath] = append(p.Axioms[pk.PkgPath], owner)
+				p.Trusted = append(p.Trusted, "axiom "+owner.Name.Name+" (assumed)")
 			case "purepkg":
 				if !p.PurePkgs[rest] {
 					p.PurePkgs[rest] = true
@@ -408,6 +416,21 @@ func (p *Program) funcInfo(fn *types.Func) *FuncInfo {
 	}
 	p.Funcs[fn] = fi
 	return fi
+}
+
+// isSpecVar: package-level variable declared in a contract file.
+func (p *Program) isSpecVar(v *types.Var) bool {
+	for _, pk := range p.Pkgs {
+		if pk.Types != v.Pkg() {
+			continue
+		}
+		for _, f := range pk.Syntax {
+			if p.SpecFile[f] && f.Pos() <= v.Pos() && v.Pos() < f.End() {
+				return true
+			}
+		}
+	}
+	return false
 }
 
 func (p *Program) fileOf(pk *packages.Package, n ast.Node) *ast.File {
